@@ -153,8 +153,69 @@ def expected_text(raw, enc_errors="surrogateescape"):
     return RE_ESC.sub("", s)
 
 
+def run_order(ctx, scn):
+    """In which order does the real QueueReader.is_fully_read read its three flags?  A reader whose flags
+    are instrumented is asked under every combination of truth values; the reads (until the short-circuit)
+    and the answer are returned.  Capture.tla shows that the answer is only safe for the order
+    closed -> pump thread stopped -> queue empty."""
+    from xonsh.procs.readers import QueueReader
+
+    log = []
+
+    class Thread:
+        def __init__(self, alive):
+            self._alive = alive
+
+        def is_alive(self):
+            log.append("thread")
+            return self._alive
+
+    class Queue:
+        def __init__(self, empty):
+            self._empty = empty
+
+        def empty(self):
+            log.append("empty")
+            return self._empty
+
+        def qsize(self):
+            log.append("empty")
+            return 0 if self._empty else 1
+
+    class Probe(QueueReader):
+        def __init__(self, closed, stopped, empty):
+            self.__dict__["_c"] = closed
+            self.fd, self.timeout = -1, None
+            self.thread = Thread(not stopped)
+            self.queue = Queue(empty)
+
+        @property
+        def closed(self):
+            log.append("closed")
+            return self.__dict__["_c"]
+
+        @closed.setter
+        def closed(self, v):
+            self.__dict__["_c"] = v
+
+    closed, stopped, empty = scn["flags"]
+    r = Probe(closed, stopped, empty)
+    del log[:]
+    try:
+        ans = bool(r.is_fully_read())
+        err = ""
+    except Exception as e:  # noqa: BLE001
+        ans, err = False, f"{type(e).__name__}: {e}"[:120]
+    return {"scn": scn, "order": True, "steps": [{"ev": "fr.read", "flag": f} for f in log] + [{"ev": "fr.answer", "flag": "yes" if ans else "no"}], "err": err}
+
+
 def run(ctx, scn):
+    if "flags" in scn:
+        return run_order(ctx, scn)
     XSH, wd, state = ctx["XSH"], ctx["wd"], ctx["state"]
+    if ctx.get("hangs", 0) >= 2:
+        # the verdict is settled (two hangs in this worker, and a hung capture may leave the session wedged)
+        return {"scn": scn, "cmd": "", "wall": 0, "nevents": 0, "steps": [{"cmd": "capture", "obs": {"ok": True, "kind": "skipped", "problems": []}}], "events": [], "skipped": True}
     raw = payload_bytes(scn["payload"], scn["size"])
     ppath = os.path.join(wd, "payload.bin")
     with open(ppath, "wb") as fh:
@@ -202,15 +263,22 @@ def run(ctx, scn):
     saved1 = os.dup(1)
     os.dup2(echo_w, 1)
     t0 = time.time()
-    signal.setitimer(signal.ITIMER_REAL, scn.get("limit", 60))
+    signal.setitimer(signal.ITIMER_REAL, scn.get("limit", 30))
+    # a capture that swallows the alarm (the wait is retried inside xonsh) must not hold the whole check:
+    # a hard watchdog ends this worker; the parent reports the scenario as a capture that never returned
+    watchdog = threading.Timer(scn.get("limit", 30) + 15, lambda: os._exit(97))
+    watchdog.daemon = True
+    watchdog.start()
     try:
         XSH.execer.exec(src + "\n", glbs=ns, locs=ns, filename="<verif-c06>")
     except Hang:
         obs.update(ok=False, kind="hang")
+        ctx["hangs"] = ctx.get("hangs", 0) + 1
     except BaseException as e:  # noqa: BLE001
         obs.update(ok=False, kind="raised", detail=f"{type(e).__name__}: {e}"[:200])
     finally:
         signal.setitimer(signal.ITIMER_REAL, 0)
+        watchdog.cancel()
         sys.stdout.flush()
         os.dup2(saved1, 1)
         os.close(saved1)
